@@ -18,6 +18,7 @@ type zzPDRSpec struct {
 	prec, srcIf, fteid, ueip, ohr, far bool
 	nqer, nurr, nsdf               int
 	sdfFD                          bool // first SDF filter carries a (concrete) flow description
+	sdfFD2                         bool // ... and so does the second one (the same text: filters that differ only in their id)
 }
 
 type zzSDFExtra struct {
@@ -68,7 +69,7 @@ func zzMkPDR(sp zzPDRSpec) *zzPDRIn {
 	}
 	for i := 0; i < sp.nsdf; i++ {
 		in.sdfBID[i] = nondetBytes("sdfid", 4)
-		if i == 0 && sp.sdfFD {
+		if (i == 0 && sp.sdfFD) || (i == 1 && sp.sdfFD2) {
 			p := []byte{0x11, 0, 0, byte(len(zzFD))}
 			p = append(p, []byte(zzFD)...)
 			p = append(p, in.sdfBID[i]...)
@@ -247,7 +248,7 @@ func (in *zzPDRIn) checkPDR(attrs []byte, seid uint64, link uint32, create bool,
 			le := uint32(x.flB[2])<<16 | uint32(x.flB[1])<<8 | uint32(x.flB[0])
 			zzAssert("C02.pdi.sdf.fl.value."+tag, *sdf.FL == be || *sdf.FL == le)
 		}
-		wantFD := k == 0 && sp.sdfFD
+		wantFD := (k == 0 && sp.sdfFD) || (k == 1 && sp.sdfFD2)
 		zzAssert("C02.pdi.sdf.fd.presence."+tag, (sdf.FD != nil) == wantFD)
 		if wantFD && sdf.FD != nil {
 			in.checkFD(sdf.FD, tag)
@@ -299,9 +300,13 @@ func zzPDRProfile(p int) zzPDRSpec {
 		return zzPDRSpec{}
 	case 2: // typical downlink: UE address, one of each
 		return zzPDRSpec{prec: true, srcIf: true, ueip: true, far: true, nqer: 1, nurr: 1, nsdf: 1}
+	case 3: // repeated SDF filters without flow description (they differ in id, ToS, SPI, flow label)
+		return zzPDRSpec{prec: true, srcIf: true, ueip: true, far: true, nsdf: 2}
+	case 4: // repeated SDF filters with the same flow description text, different ids
+		return zzPDRSpec{prec: true, srcIf: true, ueip: true, far: true, nsdf: 2, sdfFD: true, sdfFD2: true}
 	}
 	// thorough: all presence subsets, by bits
-	q := p - 3
+	q := p - 5
 	sp := zzPDRSpec{prec: q&1 != 0, srcIf: q&2 != 0, fteid: q&4 != 0, ueip: q&8 != 0, ohr: q&16 != 0, far: q&32 != 0}
 	sp.nqer = (q >> 6) % 3
 	sp.nurr = (q >> 6) / 3 % 3
@@ -383,8 +388,8 @@ func zzNPerm() int {
 	return 6
 }
 
-func ZZ_C02_CreatePDR() { zzC02PDR(3, zzNPerm(), false) }
-func ZZ_C02_UpdatePDR() { zzC02PDR(3, zzNPerm(), true) }
+func ZZ_C02_CreatePDR() { zzC02PDR(5, zzNPerm(), false) }
+func ZZ_C02_UpdatePDR() { zzC02PDR(5, zzNPerm(), true) }
 func ZZ_C02_RemovePDR() { zzC02RemovePDR() }
 
 // all presence subsets in canonical order (thorough only)
@@ -397,7 +402,7 @@ func ZZ_C02_PDRSubsets() {
 	link := nondetU32("link")
 	seid := nondetU64("seid")
 	g := zzGtp5g(link)
-	sp := zzPDRProfile(3 + nondetChoice("subset", 64*27))
+	sp := zzPDRProfile(5 + nondetChoice("subset", 64*27))
 	in := zzMkPDR(sp)
 	err := g.CreatePDR(seid, in.group(ie.CreatePDR, []int{0, 1, 2, 3}, false))
 	zzAssert("C02.pdr.accepted", err == nil)
